@@ -129,6 +129,13 @@ pub enum Op {
     NativeToByte,
     DivRem(BigUint, Option<BigUint>),
     Rem(BigUint, Option<BigUint>),
+    /// assert_lower_than_fixed(x, b1) then assert_lower_than_fixed(x, b2) on the SAME cell
+    /// (the gadget caches the tightest bound known for a cell)
+    RangeSeq(BigUint, BigUint),
+    /// to_le_bytes(x, nbytes) (which bounds the cell) then assert_lower_than_fixed(x, b)
+    BytesThenRange(usize, BigUint),
+    /// assert_lower_than_fixed(x, b) then lower_than(x, y, n) (bounded_of_element on a cached cell)
+    RangeThenLowerThan(BigUint, u32),
 }
 
 impl Op {
@@ -144,7 +151,9 @@ impl Op {
             Neg | Square | Pow(_) | AddConst(_) | MulConst(_) | Inv | Inv0 | IsZero | AssertZero | AssertNonZero
             | IsEqualToFixed(_) | IsNotEqualToFixed(_) | AssertEqualToFixed(_) | AssertNotEqualToFixed(_)
             | ToLeBits(..) | ToBeBits(..) | ToLeBytes(_) | ToBeBytes(_) | ToLeChunks(..) | Sgn0 | AssertLowerThanFixed(_)
-            | AssignLowerThanFixed(_) | NativeToBit | NativeToByte | DivRem(..) | Rem(..) | Bnot(_) => vec![N],
+            | AssignLowerThanFixed(_) | NativeToBit | NativeToByte | DivRem(..) | Rem(..) | Bnot(_) | RangeSeq(..)
+            | BytesThenRange(..) => vec![N],
+            RangeThenLowerThan(..) => vec![N, N],
             LinComb(c, _) => vec![N; c.len()],
             AddAndMul(..) => vec![N, N, N],
             BitIsEqual | BitAssertEqual | BitAssertNotEqual => vec![B, B],
@@ -385,6 +394,29 @@ pub fn reference(op: &Op, ins: &[V]) -> Option<Vec<V>> {
             }
             vec![V::Y(as_u8(&n(0)).unwrap())]
         }
+        RangeSeq(b1, b2) => {
+            let x = big(&n(0));
+            if x >= *b1 || x >= *b2 {
+                return None;
+            }
+            vec![]
+        }
+        BytesThenRange(nb, b) => {
+            let x = big(&n(0));
+            if x.bits() as usize > 8 * nb || x >= *b {
+                return None;
+            }
+            let mut by = x.to_bytes_le();
+            by.resize(*nb, 0);
+            by.into_iter().map(V::Y).collect()
+        }
+        RangeThenLowerThan(b, k) => {
+            let (x, y) = (big(&n(0)), big(&n(1)));
+            if x >= *b || x.bits() > *k as u64 || y.bits() > *k as u64 {
+                return None;
+            }
+            vec![V::B(x < y)]
+        }
         DivRem(d, bound) | Rem(d, bound) => {
             let x = big(&n(0));
             if let Some(b) = bound {
@@ -429,7 +461,8 @@ impl Case {
             IsZero | IsEqual | IsNotEqual | IsEqualToFixed(_) | IsNotEqualToFixed(_) | BitIsEqual | And(_) | Or(_) | Xor(_) | Not
             | IsCanonical(_) | LeBitsLowerThan(..) | LeBitsGeqThan(..) | Sgn0 | LowerThan(_) | SelectBit | NativeToBit => vec![Ty::B; n_outs],
             ToLeBits(..) | ToBeBits(..) => vec![Ty::B; n_outs],
-            ToLeBytes(_) | ToBeBytes(_) | NativeToByte => vec![Ty::Y; n_outs],
+            ToLeBytes(_) | ToBeBytes(_) | NativeToByte | BytesThenRange(..) => vec![Ty::Y; n_outs],
+            RangeThenLowerThan(..) => vec![Ty::B; n_outs],
             _ => vec![Ty::N; n_outs],
         }
     }
@@ -598,6 +631,19 @@ impl OpCase for Case {
                 outs.push(A::N(r));
             }
             Rem(d, bound) => outs.push(A::N(std.rem(l, &n(0), d.clone(), bound.clone())?)),
+            RangeSeq(b1, b2) => {
+                std.assert_lower_than_fixed(l, &n(0), b1)?;
+                std.assert_lower_than_fixed(l, &n(0), b2)?;
+            }
+            BytesThenRange(nb, b) => {
+                let by = std.assigned_to_le_bytes(l, &n(0), Some(*nb))?;
+                std.assert_lower_than_fixed(l, &n(0), b)?;
+                outs.extend(by.into_iter().map(A::Y));
+            }
+            RangeThenLowerThan(b, k) => {
+                std.assert_lower_than_fixed(l, &n(0), b)?;
+                outs.push(A::B(std.lower_than(l, &n(0), &n(1), *k)?));
+            }
         }
         for x in &outs {
             match x {
